@@ -111,7 +111,7 @@ def same_bits(a, b):
 def roundtrip_cases(chk, drv, work):
     rng = chk.rng
     grids = proc_grids(chk.n(4, 8))
-    n_cases = chk.n(14, 120)
+    n_cases = chk.n(24, 120)
     for it in range(n_cases):
         nd = rng.choice([4, 4, 3])
         PW, PR = rng.choice(grids), rng.choice(grids)
@@ -203,7 +203,7 @@ def latest_cases(chk, drv, work):
     from pygyro.initialisation.setups import setupFromFile, setupCylindricalGrid
     from pygyro.utilities.savingTools import setupSave
     rng = chk.rng
-    for it in range(chk.n(4, 16)):
+    for it in range(chk.n(6, 16)):
         folder = os.path.join(work, 'lat_%d' % it)          # underscore and dot in the folder name on purpose
         folder = folder + rng.choice(['', '_v1.5', '.d_x'])
         npts = [rng.randint(4, 6) for _ in range(4)]
@@ -542,7 +542,7 @@ def driver_cases(chk, drv, prog, work, plan):
     return du
 
 
-QUICK_PLAN = [(1, 1, 1, 1, 2, 1), (2, 1, 3, 2, 1, 1)]
+QUICK_PLAN = [(1, 1, 1, 1, 2, 1), (2, 1, 3, 2, 1, 1), (3, 2, 2, 1, 1, 2)]
 THOROUGH_PLAN = ([(S, N, M, 1, 1, 1) for S in (1, 2, 3) for (N, M) in ((1, 2), (2, 1))] +
                  [(2, 1, 4, 1, 1, 1), (3, 2, 5, 2, 2, 2), (4, 3, 2, 1, 1, 1)] +
                  [(S, 1, 2, r1, r2, 1) for S in (1, 2, 3) for (r1, r2) in ((2, 3), (4, 1), (3, 4))])
